@@ -20,6 +20,7 @@ def specs(tier):
         J('lagging3:H1R1', 'lagging', dict(n=3), dict(H=1, R=1)),
         J('lagsnap3:H1R1', 'lagging_snap', dict(n=3), dict(H=1, R=1)),
         J('lagsnap3-chunk64:H1', 'lagging_snap', dict(n=3, chunk=64), dict(H=1)),
+        J('lagsnap3-chunk64-flap:H2R2X1', 'lagging_snap', dict(n=3, chunk=64), dict(H=2, R=2, X=1)),
         J('deposed3:H1R1', 'deposed', dict(n=3), dict(H=1, R=1)),
         J('deposedsnap3:H1R1', 'deposed_snap', dict(n=3), dict(H=1, R=1)),
         J('deposed3-b24:H1R1', 'deposed', dict(n=3, batch_bytes=SMALLB), dict(H=1, R=1), dict(tail=3, newk=4)),
